@@ -83,8 +83,7 @@ Definition check_cases (rc : bool) (cs : list qcase)
 
 (* ---------------------------------------------------------------- event stream, sequential *)
 
-Definition msg_eqb (a b : msg) : bool :=
-  Nat.eqb (fst a) (fst b) && Nat.eqb (fst (snd a)) (fst (snd b)) && Nat.eqb (snd (snd a)) (snd (snd b)).
+Definition msg_eqb (a b : nat * nat) : bool := Nat.eqb (fst a) (fst b) && Nat.eqb (snd a) (snd b).
 
 Definition sobs_eqb (a b : sobs) : bool :=
   list_eqb msg_eqb (so_result a) (so_result b) && list_eqb Bool.eqb (so_active a) (so_active b)
